@@ -239,7 +239,7 @@ def gen_scenario(rng, profile=None, size=None, exclude=frozenset()):
         # one recorded object driven through many changes by one process: histories that cross the growth thresholds of the
         # history arrays (1024 samples), values that repeat (a sample equal to the running mean), changes in the same instant
         kind = rng.choice(["buf", "oq", "res", "pool"])
-        k = rng.choice([3, 10, 40, 40, 120]) if rng.random() < 0.9 else rng.choice([515, 530, 600])
+        k = rng.choice([3, 10, 40, 40, 120]) if rng.random() < 0.9 else rng.choice([1030, 1100, 1300])
         head = {"buf": "buf 5", "oq": "oq 4", "res": "res", "pool": "pool 6"}[kind]
         code = {"buf": 2, "oq": 3, "res": 0, "pool": 1}[kind]
         up, down = {"buf": ("bput 0 %d", "bget 0 %d"), "oq": ("oput 0 %d", "oget 0"), "res": ("acq 0", "rel 0"),
